@@ -510,7 +510,7 @@ def _simpler_items(sp, dim):
             yield [k, [0 if q else q for q in v]] + sp[2:]
 
 
-def shrink(case, sig, avoid, budget=150):
+def shrink(case, sig, avoid, budget=250):
     """greedy: single chunks, simpler items, fewer items; keeps the signature."""
 
     def fails(c):
@@ -549,6 +549,30 @@ def shrink(case, sig, avoid, budget=150):
                 cands.append({**cur, "index": ix})
         if cur["index"] and cur["index"][-1] == ["s", None, None, None]:
             cands.append({**cur, "index": cur["index"][:-1]})
+        # drop an axis that is indexed by an integer / a full slice / nothing, shrink an axis
+        if "pre" not in cur and not any(s[0] in ("e", "ba", "dab", "bl") for s in cur["index"]) and len(cur["shape"]) > 1:
+            axes_of = []
+            for j, sp in enumerate(cur["index"]):
+                if sp[0] != "n":
+                    axes_of.append(j)
+            for ax in range(len(cur["shape"])):
+                j = axes_of[ax] if ax < len(axes_of) else None
+                if j is None or cur["index"][j][0] == "i" or _colon(cur["index"][j]):
+                    if j is not None and cur["index"][j][0] == "i" and not (-cur["shape"][ax] <= cur["index"][j][1] < cur["shape"][ax]):
+                        continue
+                    ix = [sp for k, sp in enumerate(cur["index"]) if k != j]
+                    cands.append({**cur, "shape": [n for k, n in enumerate(cur["shape"]) if k != ax],
+                                  "chunks": [c for k, c in enumerate(cur["chunks"]) if k != ax], "index": ix})
+        if "pre" not in cur and not any(s[0] in ("ba", "dab", "bl") for s in cur["index"]):
+            for ax, n in enumerate(cur["shape"]):
+                if n > 1 and cur["chunks"][ax][-1] >= 1:
+                    cc = [list(q) for q in cur["chunks"]]
+                    cc[ax][-1] -= 1
+                    if cc[ax][-1] == 0 and len(cc[ax]) > 1:
+                        cc[ax].pop()
+                    sh = list(cur["shape"])
+                    sh[ax] = n - 1
+                    cands.append({**cur, "shape": sh, "chunks": cc})
         for c in cands:
             steps += 1
             if steps > budget:
